@@ -38,6 +38,9 @@ func oracleC04Styled(p *Pair, env *Env, style string, a [][]byte) *Failure {
 	case "absent", "empty-file", "malformed":
 		// "a missing or unreadable file, where nothing is inserted"
 		cfg = [][]byte{{}, {}, {}, {}, {}, {}}
+	case "alias":
+		// the file writes each windows pattern as an alias of the unix one
+		cfg = [][]byte{cfg[0], cfg[1], cfg[2], cfg[0], cfg[1], cfg[2]}
 	}
 	ev, suf, ns := string(cfg[0]), string(cfg[1]), string(cfg[2])
 	if shell == "windows" {
@@ -289,7 +292,7 @@ func genC04(r *rand.Rand, tier string, env *Env) []Case {
 		for _, c := range cfg {
 			cb = append(cb, []byte(c))
 		}
-		style := []string{"omit-empty", "padded", "empty-file", "malformed", "absent", "case-keys", "padded", "case-keys"}[i%8]
+		style := []string{"omit-empty", "padded", "empty-file", "malformed", "absent", "case-keys", "alias", "case-keys", "alias", "padded"}[i%10]
 		shell := pick(r, []string{"unix", "windows"})
 		w := genCmdWord(r)
 		prog := "##!> cmdline " + shell + "\n" + w + "\n" + pick(r, []string{"ls@", "cat~", "a b", "x.y-z"}) + "\n##!<\n"
